@@ -838,27 +838,43 @@ def _opt_chunk(arg):
     return out
 
 
+BATCH = 50
+
+
 def validate(ck, runs, vs, name, count=True, opt=()):
+    """TpTrace over the runs, in batches of BATCH traces (every table of the specification ranges over the residue types of the whole
+    document, so one document with all traces costs states x types); samples of construct_vs / optimize_geometry go with the first batch.
+    -> ({trace number (1-based over runs): matched events}, rejected sample numbers)"""
     wd = c.workdir("C15", name)
-    content = {}
-    for r in runs:
-        content.update(r["content"])
-    if not content:
-        content = {"none": {"rn": "RX", "nm": ["A"], "ed": [], "hasvs": False, "bonded": False}}
-    doc = {"content": content, "traces": [r["trace"] for r in runs], "vs": [{k: s[k] for k in ("kind", "matches_gmx", "equivariant")} for s in vs],
-           "opt": [{k: o[k] for k in ("success", "targets_ok")} for o in opt]}
-    f = wd / "traces.json"
-    f.write_text(json.dumps(doc))
-    res = c.tlc("TpTrace", "Tp_trace.cfg", workers=1, env={"TRACE_FILE": str(f)}, check=False)
-    rej, rejvs = res.tagged("REJECTED"), res.tagged("REJECTEDVS") + [[-int(i) for i in r] for r in res.tagged("REJECTEDOPT")]
-    if res.rc != 0 and not rej and not rejvs:
-        raise c.MachineryError("TpTrace failed: %s" % res.out[-2500:])
-    rejected = {}
-    for r in rej:
-        rejected.update({int(t): int(m) for t, m in r})
-    if count:
-        ck.add_tlc(res)
-    return rejected, sorted({int(i) for r in rejvs for i in r})
+    batches = [runs[i:i + BATCH] for i in range(0, len(runs), BATCH)] or [[]]
+    jobs = []
+    for b, batch in enumerate(batches):
+        content = {}
+        for r in batch:
+            content.update(r["content"])
+        if not content:
+            content = {"none": {"rn": "RX", "nm": ["A"], "ed": [], "hasvs": False, "bonded": False}}
+        doc = {"content": content, "traces": [r["trace"] for r in batch],
+               "vs": [{k: s_[k] for k in ("kind", "matches_gmx", "equivariant")} for s_ in vs] if b == 0 else [],
+               "opt": [{k: o[k] for k in ("success", "targets_ok")} for o in opt] if b == 0 else []}
+        f = wd / ("traces%d.json" % b)
+        f.write_text(json.dumps(doc))
+        jobs.append(("TpTrace", "Tp_trace.cfg", {"workers": 1, "env": {"TRACE_FILE": str(f)}, "check": False}))
+    par = max(1, min(c.NPROC, 5))
+    results = []
+    for i in range(0, len(jobs), par):
+        results += c.tlc_many(jobs[i:i + par], workers_each=1)
+    rejected, badsamples = {}, set()
+    for b, res in enumerate(results):
+        rej, rejvs = res.tagged("REJECTED"), res.tagged("REJECTEDVS") + [[-int(i) for i in r] for r in res.tagged("REJECTEDOPT")]
+        if res.rc != 0 and not rej and not rejvs:
+            raise c.MachineryError("TpTrace failed: %s" % res.out[-2500:])
+        for r in rej:
+            rejected.update({b * BATCH + int(t): int(m) for t, m in r})
+        badsamples |= {int(i) for r in rejvs for i in r}
+        if count:
+            ck.add_tlc(res)
+    return rejected, sorted(badsamples)
 
 
 def binding_demo(ck, runs, rejected, vs, badvs):
